@@ -1161,11 +1161,11 @@ func Run(c *core.Ctx) {
 	setup()
 	nExit := c.Pick(72, 1440)
 	nIndep := c.Pick(24, 240)
-	nRand := c.Pick(960, 48000)
+	nRand := c.Pick(640, 32000)
 	if c.Race {
 		nExit = c.Pick(36, 360)
 		nIndep = c.Pick(12, 48)
-		nRand = c.Pick(128, 6400)
+		nRand = c.Pick(96, 4800)
 	}
 	for i := 0; i < nExit; i++ {
 		if c.Mine("exit", i) {
